@@ -41,6 +41,15 @@ pub struct DirectedStats {
     pub runs: usize,
     pub not_canonical: usize,
     pub truncated: bool,
+    pub dropped_large: usize,
+}
+
+const RETAIN_BUDGET: usize = 1 << 30;
+const RETAIN_SMALL: usize = 256 << 10;
+
+/// rough heap footprint of a held case (frame, trace leaves with their path strings, decisions)
+fn case_cost(e: &Encoded) -> usize {
+    e.frame.len() + e.trace.len() * 160 + e.decisions.len() * 96 + e.regions.len() * 64
 }
 
 /// Explores every alternative of every decision site that any explored encoding reveals.
@@ -73,6 +82,72 @@ pub fn directed(enc: &dyn Fn(&[u8], &BTreeMap<String, u32>) -> Result<Encoded, E
         Err(EncodeError::NotCanonical(_)) => stats.not_canonical += 1,
     }
     stats.runs += 1;
+    // extremal cases first (a truncated enumeration must not lose them): every decision at its largest alternative at
+    // once - all flags, optional present, three elements per array, longest guids, full masks - iterated until no new site
+    // appears, then each enum site varied over its enumerators with everything else held there
+    {
+        let largest = |kind: DecKind, arity: u32| -> Option<u32> {
+            match kind {
+                DecKind::Flag => Some(if arity >= 3 { arity - 2 } else { arity.saturating_sub(1) }),
+                DecKind::Optional => if arity == 2 { Some(1) } else { None },
+                // counts and strings stay moderate: every array at its cap at once gives megabyte frames, and each
+                // site is taken to its cap on its own by the work list below
+                DecKind::Count => Some(3),
+                DecKind::StrLen => Some(2),
+                DecKind::Int => Some(7),
+                DecKind::Guid => Some(7),
+                DecKind::Mask => Some(arity.saturating_sub(1)),
+                DecKind::Bool => Some(1),
+                DecKind::Enum | DecKind::Float | DecKind::Date => None,
+            }
+        };
+        let mut fmax: BTreeMap<String, u32> = BTreeMap::new();
+        let mut last: Option<Encoded> = None;
+        for _ in 0..8 {
+            stats.runs += 1;
+            match enc(seed_tape, &fmax) {
+                Ok(e) => {
+                    let mut grew = false;
+                    for d in &e.decisions {
+                        if d.arity == 0 || fmax.contains_key(&d.site) {
+                            continue;
+                        }
+                        if let Some(a) = largest(d.kind, d.arity) {
+                            fmax.insert(d.site.clone(), a);
+                            grew = true;
+                        }
+                    }
+                    last = Some(e);
+                    if !grew {
+                        break;
+                    }
+                }
+                Err(EncodeError::Problem(p)) => return Err(p),
+                Err(EncodeError::NotCanonical(_)) => {
+                    stats.not_canonical += 1;
+                    break;
+                }
+            }
+        }
+        if let Some(e) = last {
+            let enum_sites: Vec<(String, u32)> = e.decisions.iter().filter(|d| d.kind == DecKind::Enum && d.arity > 0).map(|d| (d.site.clone(), d.arity)).collect();
+            push_sites(&e, &fmax, &mut seen_sites, &mut work);
+            out.push(Case { enc: e, tape: seed_tape.to_vec(), forced: fmax.clone() });
+            for (site, arity) in enum_sites.into_iter().take(6) {
+                for a in 0..arity.min(24) {
+                    let mut f = fmax.clone();
+                    f.insert(site.clone(), a);
+                    stats.runs += 1;
+                    match enc(seed_tape, &f) {
+                        Ok(e2) => out.push(Case { enc: e2, tape: seed_tape.to_vec(), forced: f }),
+                        Err(EncodeError::Problem(p)) => return Err(p),
+                        Err(EncodeError::NotCanonical(_)) => stats.not_canonical += 1,
+                    }
+                }
+            }
+        }
+    }
+    let mut retained: usize = out.iter().map(|c| case_cost(&c.enc)).sum();
     let mut i = 0;
     while i < work.len() {
         if stats.runs >= max_runs {
@@ -87,6 +162,16 @@ pub fn directed(enc: &dyn Fn(&[u8], &BTreeMap<String, u32>) -> Result<Encoded, E
         match enc(seed_tape, &forced) {
             Ok(enc) => {
                 push_sites(&enc, &forced, &mut seen_sites, &mut work);
+                // the cases are held until the caller has used them: a context that holds an outer array at its cap
+                // makes every case below it megabytes of trace, and two thousand of those are the worker's whole
+                // budget. Once the held cases pass RETAIN_BUDGET only the small ones are still kept (the sites the
+                // large ones reveal are explored all the same).
+                let cost = case_cost(&enc);
+                if retained + cost > RETAIN_BUDGET && cost > RETAIN_SMALL {
+                    stats.dropped_large += 1;
+                    continue;
+                }
+                retained += cost;
                 out.push(Case { enc, tape: seed_tape.to_vec(), forced });
             }
             Err(EncodeError::Problem(p)) => return Err(p),
